@@ -204,6 +204,7 @@ def build(index, contracts, specs, rec, fid):
     ctx.inlined = set()
     ctx.used_contracts = set()
     ctx.wf_on = False
+    ctx.applying = set()
     ctx.named_defs = []
     ctx.naming_off = 0
     ctx.typed_seqs = set()
@@ -616,7 +617,7 @@ def main():
     try:
         r = verify(fid)
     except Exception as e:
-        r = {'fid': fid, 'status': 'ENGINE-ERROR', 'reason': f'{type(e).__name__}: {e}', 'trace': traceback.format_exc(),
+        r = {'fid': fid, 'status': 'ENGINE-ERROR', 'reason': f'{type(e).__name__}: {str(e)[:300]}', 'trace': traceback.format_exc()[-3000:],
              'obligations': []}
     json.dump(r, sys.stdout, indent=1, default=str)
 
